@@ -143,6 +143,10 @@ def diff(a, b):
         for k in sorted(set(x) | set(y)):
             if x.get(k) != y.get(k):
                 return "%s.%s: %r vs %r" % (n, k, x.get(k, "<absent>"), y.get(k, "<absent>"))
-    if ra != rb:
+    if [n for n, _ in ra] != [n for n, _ in rb]:
         return "return entry %r vs %r" % (ra, rb)
+    for (n, x), (_n, y) in zip(ra, rb):
+        for k in sorted(set(x) | set(y)):
+            if x.get(k) != y.get(k):
+                return "returns.%s: %r vs %r" % (k, x.get(k, "<absent>"), y.get(k, "<absent>"))
     return None
